@@ -4,8 +4,6 @@
 //! history is replayed through the public API. After every transition the real answer is compared with the model (inside `apply`).
 //! States are deduplicated on `key()`: the object's internal bookkeeping (`VerifState`) plus the model state.
 
-use crate::master::{Report, Viol};
-use serde_json::{json, Value};
 use std::collections::{HashSet, VecDeque};
 use std::panic::{catch_unwind, AssertUnwindSafe};
 use std::time::Instant;
@@ -65,7 +63,10 @@ pub fn replay(cfg: &Config, hist: &[usize]) -> Result<(Box<dyn Sys>, Vec<String>
     Ok((sys, names, obs))
 }
 
-pub fn explore(cfg: &Config, deadline: Instant, max_states: usize) -> SeqResult {
+pub fn explore(cfg: &Config, deadline: Instant, max_states: usize) -> SeqResult { explore_with(cfg, deadline, max_states, |_| {}) }
+
+/// `on_replay` is told every history just before it is executed (the sanitizer build records it, so that an abort can be attributed)
+pub fn explore_with(cfg: &Config, deadline: Instant, max_states: usize, mut on_replay: impl FnMut(&[usize])) -> SeqResult {
     let mut res = SeqResult::default();
     let mut seen: HashSet<Vec<u64>> = HashSet::new();
     let mut frontier: VecDeque<Vec<usize>> = VecDeque::new();
@@ -83,6 +84,7 @@ pub fn explore(cfg: &Config, deadline: Instant, max_states: usize) -> SeqResult 
             let mut h2 = hist.clone(); h2.push(c);
             res.replays += 1;
             res.transitions += 1;
+            on_replay(&h2);
             match replay(cfg, &h2) {
                 Ok((mut sys, names, obs)) => {
                     let k = sys.key();
@@ -113,46 +115,3 @@ fn push_viol(res: &mut SeqResult, bad: Bad, hist: &[usize], names: &[String]) {
     }
 }
 
-/// runs every configuration (in parallel threads) and folds the results into a report
-pub fn run_configs(prop: &str, tier: crate::registry::Tier, cfgs: Vec<Config>, wall_cap_s: u64, max_states: usize, rep: &mut Report) {
-    let deadline = Instant::now() + std::time::Duration::from_secs(wall_cap_s);
-    let cfgs: Vec<std::sync::Arc<Config>> = cfgs.into_iter().map(std::sync::Arc::new).collect();
-    let queue = std::sync::Arc::new(std::sync::Mutex::new((0..cfgs.len()).collect::<VecDeque<usize>>()));
-    let results = std::sync::Arc::new(std::sync::Mutex::new(Vec::new()));
-    let nthreads = std::thread::available_parallelism().map(|n| n.get()).unwrap_or(4).min(16).min(cfgs.len().max(1));
-    let mut handles = Vec::new();
-    for _ in 0..nthreads {
-        let (queue, results, cfgs) = (queue.clone(), results.clone(), cfgs.clone());
-        handles.push(std::thread::Builder::new().stack_size(8 << 20).spawn(move || {
-            loop {
-                let Some(i) = queue.lock().unwrap().pop_front() else { break };
-                let r = explore(&cfgs[i], deadline, max_states);
-                results.lock().unwrap().push((i, r));
-            }
-        }).unwrap());
-    }
-    for h in handles { let _ = h.join(); }
-    let mut results = std::mem::take(&mut *results.lock().unwrap());
-    results.sort_by_key(|x| x.0);
-    let mut per_cfg = Vec::new();
-    let mut outcomes: HashSet<String> = HashSet::new();
-    let mut all_fix = true;
-    for (i, r) in results {
-        let cfg = &cfgs[i];
-        rep.states += r.states;
-        rep.transitions += r.transitions;
-        rep.traces += r.replays;
-        if r.capped { rep.exhaustive = false }
-        all_fix &= r.fixpoint;
-        per_cfg.push(json!({"config": cfg.name, "states": r.states, "transitions": r.transitions, "max_depth_reached": r.depth, "fixpoint": r.fixpoint, "capped": r.capped}));
-        for s in r.samples.iter().take(1) { if rep.samples.len() < 6 { rep.samples.push(json!({"config": cfg.name, "history => observations": s})) } }
-        outcomes.extend(r.outcomes);
-        for (kind, detail, choices, names) in r.violations {
-            rep.violations.push(Viol { family: cfg.name.clone(), rung: format!("D{}", choices.len()), kind, detail: format!("{detail} -- history: {}", names.join(", ")),
-                replay: json!({"engine": "seqx", "prop": prop, "tier": tier.name(), "config": cfg.name, "choices": choices, "operations": names}) });
-        }
-    }
-    rep.extra.insert("seqx_configs".into(), Value::Array(per_cfg));
-    rep.extra.insert("seqx_all_configs_reached_a_fixpoint".into(), json!(all_fix));
-    rep.extra.insert("seqx_distinct_observations".into(), json!(outcomes.len()));
-}
